@@ -8,6 +8,7 @@ import (
 	"net/http"
 	"os"
 	"path"
+	"strings"
 	"path/filepath"
 	"strconv"
 
@@ -146,7 +147,13 @@ func genC19(r *h.Rand, tier string) []h.Case {
 			sortStrings(all)
 			p := r.Pick(all)
 			kind := r.Pick([]string{"os", "http", "embed", "os-stack"})
-			cs = append(cs, h.Case{Stream: "fs", Cmd: sx.L(sx.A("fsq"), sx.A(kind), sx.S(p)), NoModel: true, NonTrivial: true, Tags: []string{kind}})
+			cmd := sx.L(sx.A("fsq"), sx.A(kind), sx.S(p))
+			if kind == "embed" {
+				// the directory inside the embed.FS, in every spelling that names it - or its parent, with the
+				// directory's name in front of the path asked for
+				cmd.Add(sx.S(r.Pick([]string{"embedtree", "embedtree", "./embedtree", "embedtree/", "embedtree/.", "embedtree/sub/..", ".", "./", "embedtree/..", "embedtree/sub/../.."})))
+			}
+			cs = append(cs, h.Case{Stream: "fs", Cmd: cmd, NoModel: true, NonTrivial: true, Tags: []string{kind}})
 		}
 	}
 	return cs
@@ -478,11 +485,19 @@ func init() {
 		case "http":
 			l, _ = httpfs.NewLoader(http.Dir(fsRoot()))
 		case "embed":
-			l = embedfs.NewLoader("embedtree", embedTree)
+			root := "embedtree"
+			if len(cmd.Xs) > 3 {
+				root = string(cmd.Xs[3].B)
+			}
+			l = embedfs.NewLoader(root, embedTree)
+			kind = "embed(root " + strconv.Quote(root) + ")"
 		case "os-stack":
 			l = multi.NewLoader(jet.NewInMemLoader(), jet.NewOSFileSystemLoader(fsRoot()))
 		}
 		want, isFile := fsFiles[p]
+		if len(cmd.Xs) > 3 && !strings.Contains(path.Clean(string(cmd.Xs[3].B)), "embedtree") {
+			p = "/embedtree" + p // the root names the parent directory
+		}
 		e := l.Exists(p)
 		fail := ""
 		if e != isFile {
